@@ -192,6 +192,7 @@ pub struct Gen<'a> {
     pub allow_compiler: bool,
     pub allow_inputs: bool,
     pub wild: bool,
+    pub long_bytes: bool,
 }
 
 pub fn addr_bytes(tag: u8) -> Vec<u8> {
@@ -209,7 +210,7 @@ fn bx<T: Into<E>>(x: T) -> E {
 
 impl<'a> Gen<'a> {
     pub fn new(r: &'a mut Rng) -> Self {
-        Gen { r, params: BTreeMap::new(), inputs: vec![], allow_params: true, allow_compiler: true, allow_inputs: true, wild: false }
+        Gen { r, params: BTreeMap::new(), inputs: vec![], allow_params: true, allow_compiler: true, allow_inputs: true, wild: false, long_bytes: false }
     }
 
     fn param(&mut self, prefix: &str, ty: Type) -> E {
@@ -289,6 +290,11 @@ impl<'a> Gen<'a> {
     }
 
     pub fn bytes_lit(&mut self) -> Vec<u8> {
+        if self.long_bytes && self.r.chance(1, 40) {
+            // an embedded script: longer than any fixed decoding buffer
+            let n = *self.r.pick(&[4095usize, 4096, 4097, 5000, 12288]);
+            return vec![self.r.below(256) as u8; n];
+        }
         let n = *self.r.pick(&[0usize, 1, 4, 28, 32]);
         let t = self.r.below(4) as u8;
         vec![t; n]
